@@ -28,7 +28,7 @@ def run(prop, tier, seed, scratch, replay=None):
     cov = None
     if tier == "thorough":
         cov = vlib.coverage_check(scratch, "ChainSync.tla", "MC_ChainSync_quick.cfg",
-                                  ["Receive", "Extend", "Reorg", "DupDisconnect", "StaleDisconnect", "Stop", "Start"])
+                                  ["Receive", "Extend", "Reorg", "Flap", "DupDisconnect", "StaleDisconnect", "Stop", "Start"])
     simtr = scratch.path("sim.ndjson")
     sim = vlib.run_tlc(scratch, "ChainSync.tla", "MC_ChainSync_sim.cfg", simulate=NSIM[tier], depth=26, seed=seed,
                        out_traces=simtr, tag="sim", timeout=1800)
